@@ -10,8 +10,8 @@ LEVEL = "fault_enumeration"
 LEVEL_TEXT = ("Complete enumeration of base program (9 programs whose lines contain every construct that touches line bookkeeping: ; and "
               "/* */ comments, multi-line comments, blank lines, indentation, blocks, named scopes, macro definitions and applications, "
               "loops, conditionals, data lists, quoted strings, bare mnemonics with trailing comments, long files, form feed / NEL / U+2028 inside comments and strings) x every "
-              "line boundary where a statement can stand x 7 faulty statements (undefined symbol in an operand / in .db, bad size "
-              "suffix, bad index register, unterminated string before a newline / at end of input / ending in a backslash) x 2 indentations x 3 file "
+              "line boundary where a statement can stand x 8 faulty statements (undefined symbol in an operand / in .db, bad size "
+              "suffix, bad index register, unterminated string before a newline / at end of input / ending in a backslash) x 4 indentations (none, spaces, tab, mixed) x 3 file "
               "situations (main file; inside an included file; in the main file after an include). The reported text must name the "
               "right file and zero-based line, quote that line, and for lexical errors give the column of the offending character. "
               "Four unit tests check an error on line 0 of a one-line program.")
@@ -128,6 +128,7 @@ FAULTS = {
     "bad-index-register": ("lda 0x12,z", 9),
     "unterminated-string": (".ascii 'abc", 7),
     "unterminated-string-at-eof": (".ascii 'abc", 7),
+    "undefined-symbol-dw-before-multiline-comment": (".dw nosuchsymbol /* comment opened on the statement's line\n   and closed on the next */", None),
     "unterminated-string-ending-in-backslash": (".ascii 'C:\\data\\", 7),
 }
 SITUATIONS = ["main", "included", "main-after-include"]
@@ -135,7 +136,7 @@ INC_VALID = "; included helper file\n\nhelper_value = 0x21\n/* with\n a comment 
 
 
 def bound(tier):
-    return "10 base programs x every insertable line boundary x 7 faults x 2 indentations x 3 file situations (thorough: + nested include, + the 13 generated programs of the layout check)"
+    return "10 base programs x every insertable line boundary x 8 faults x 4 indentations (none, spaces, tab, mixed) x 3 file situations (thorough: + nested include, + the 13 generated programs of the layout check)"
 
 
 def parse_base(text):
@@ -248,7 +249,7 @@ def run_fault(name, fault, sit):
     for at in insertable:
         if fault == "unterminated-string-at-eof" and at != len(lines):
             continue
-        for indent in ("", "    "):
+        for indent in ("", "    ", "\t", "\t  \t"):
             faulty = indent + stmt
             col = None if col0 is None else col0 + len(indent)
             new = lines[:at] + [faulty] + lines[at:]
@@ -280,7 +281,7 @@ def run_fault(name, fault, sit):
                 viol.append({"key": f"location:error-not-reported:{fault}", "msg": f"{ctx}: program with `{stmt}` was accepted :: {src!r}"})
                 outcomes.add("NOT-REPORTED")
                 continue
-            tag = check_report(rep, fname, line_no, faulty, col, viol, ctx, fault)
+            tag = check_report(rep, fname, line_no, faulty.split("\n")[0], col, viol, ctx, fault)
             outcomes.add(tag)
             if example is None and tag == "located" and at > 2:
                 example = {"source": src, "files": files, "report": rep}
